@@ -93,6 +93,26 @@ def const_membership(e: ast.AST):
     return subj, consts
 
 
+def const_key_entries(fn: ast.AST) -> List[Tuple[str, ast.AST, str]]:
+    """(key, value, container text) for every dict entry with a constant string key made in the function: entries of dict literals,
+    `d["k"] = v` item assignments and dict(k=v) keywords - a table is the same table however it is filled"""
+    out = []
+    for n in walk_no_nested(fn):
+        if isinstance(n, ast.Dict):
+            for k, v in zip(n.keys, n.values):
+                if k is not None and const_str(k) is not None:
+                    out.append((const_str(k), v, "{}"))
+        elif isinstance(n, ast.Assign):
+            for t in n.targets:
+                if isinstance(t, ast.Subscript) and const_str(t.slice) is not None:
+                    out.append((const_str(t.slice), n.value, src(t.value)))
+        elif isinstance(n, ast.Call) and isinstance(n.func, ast.Name) and n.func.id == "dict":
+            for kw in n.keywords:
+                if kw.arg:
+                    out.append((kw.arg, kw.value, "dict()"))
+    return out
+
+
 def dict_path(fn: ast.AST, e: ast.AST, depth: int = 0) -> Optional[Tuple[str, ...]]:
     """The key path an expression denotes inside a nested dict: g[a][b], g.get(a, {}).get(b), g.setdefault(a, {})[b] and a local bound to
     any of those all give (g, a, b).  None when the expression is not such an access."""
@@ -562,8 +582,8 @@ def check_core_scope_semantics(col, rule: str, repo: Repo):
     bgr = bk.methods["get_rep"]
     key = bgr.node.args.args[1].arg
     outs = outcomes(bgr.node)
-    ok = len(outs) == 2 and [o.text for o in outs if o.under((f"{key} in self._rep_dict", True))] == [f"self._rep_dict[{key}]"] \
-        and [o.text for o in outs if o.under((f"{key} in self._rep_dict", False))] == ["None"]
+    # (normal form of "the value when known, else None": E-NORM N13)
+    ok = len(outs) == 1 and outs[0].kind == "return" and outs[0].text == f"self._rep_dict.get({key})"
     col.add(rule, "block.get_rep", "own-definitions-only", ok, "a known key returns this block's own value, an unknown one None", bgr.loc)
 
     # as_sequence: an existing sequence is reused; a collection is looped over once per block chain (remembered on the cursor)
@@ -1019,6 +1039,11 @@ def check_created_variables_declared(col, rule: str, repo: Repo, floor: int = 8)
                     and call_name(a.value) in ("cpp_variable", "cpp_collection")):
                 continue
             name = a.targets[0].id
+            # only a fresh identifier needs a declaration: the first argument is (or resolves to) a unique_name(..) call; a value built
+            # around an expression's text (a method call's result) names nothing new
+            first = resolve_name(f.node, a.value.args[0]) if a.value.args else None
+            if not (isinstance(first, ast.Call) and call_name(first) == "unique_name"):
+                continue
             pm = pm or parent_map(f.node)
             n += 1
             decls = []
